@@ -3,6 +3,6 @@ CONSTANTS
   Sigma = {1, 2}
   MaxP = 5
   MaxT = 12
-  Bug = ""
+  KmpBug = ""
 INVARIANTS PrefixFnCorrect QInvariant HitCorrect
 CHECK_DEADLOCK FALSE
